@@ -44,6 +44,7 @@ import AgVerif.Proof.DexExample
 import AgVerif.Proof.DexXBuild
 import AgVerif.Proof.DexXInits
 import AgVerif.Proof.DexXExample
+import AgVerif.Proof.DexXDebug
 namespace AgVerif.C05
 open AgVerif.DexFile AgVerif.Spec.Leb
 open AgVerif.Spec.DexFile (ushort uint ULeb protoId fieldId methodId classDef typeListBody codeHdr EncFields EncMethods EncClassData diffs undiffs Ascending)
@@ -388,6 +389,20 @@ theorem annotation_records_roundtrip (l : List Nat) (d : AnnDir) (rest : Bytes) 
     decOffList (DexX.encOffList l ++ rest) = some (l, rest) ∧ decAnnDir (DexX.encAnnDir d ++ rest) = some (d, rest) :=
   ⟨decOffList_enc l rest hl, decAnnDir_enc d rest hd⟩
 
+/-! ### debug_info_item (parsed on demand: EncodedMethod.get_debug → ClassManager.get_debug_off) -/
+
+/-- a debug_info_item of the format document — uleb128 line_start, uleb128 parameters_size, uleb128p1
+    parameter names, state machine bytecodes with the operands their opcode prescribes (uleb128 /
+    sleb128 / uleb128p1; none for the flag and special opcodes) up to DBG_END_SEQUENCE, every LEB128
+    item in any valid (also padded) encoding — is decoded to what it denotes, and the rest of the
+    buffer is left -/
+theorem debug_info_roundtrip (e : DebugEnc) (rest : Bytes) (h : e.WF) :
+    decDebugInfo (e.bytes ++ rest) = some (e.denotes, rest) := decDebugInfo_enc e rest h
+
+/-- file level: the debug info of a method is what the item stored at its debug_info_off denotes -/
+theorem debug_info_from_file (file : Bytes) (off : Nat) (e : DebugEnc) (h : e.WF) (hat : At file off e.bytes) :
+    getDebug file off = some e.denotes := getDebug_at file off e h hat
+
 /-- the layout-parametric writer with the five sections of the extension: its output encodes the tables -/
 theorem build_encodes_static_values (TX : TablesX) (L : Layout) (size : Nat) (hc : ConsistentX TX L size)
     (hi : ItemsOk TX.base) (ha : ∀ p ∈ TX.encArrays, DexX.EncArray p.2 p.1)
@@ -605,6 +620,24 @@ example : (declaredX ExampleX.TX ExampleX.L).classes.map (fun c => c.inits.map (
     (declaredX ExampleX.TX ExampleX.L).classes.map (fun c => c.inits.map (·.bind ExampleX.valRef)) = [[none, some ["x"]]] ∧
     (declaredX ExampleX.TX ExampleX.L).classes.map (·.annDir) = [some ⟨0x84, [], [], []⟩] ∧
     (declaredX ExampleX.TX ExampleX.L).classes.map (·.annotations) = [[ascii "LA;"]] := by
+  decide +kernel
+
+/-- … a debug_info_item: line 5, one parameter name (string 0), ADVANCE_PC 3, ADVANCE_LINE -1, a special
+    opcode, END_SEQUENCE -/
+def exampleDebug : DebugEnc :=
+  ⟨[5], 5, [1], [([1], 1)], [⟨1, [⟨.u, 3, [3]⟩]⟩, ⟨2, [⟨.s, -1, [0x7f]⟩]⟩, ⟨0x0a, []⟩]⟩
+example : exampleDebug.WF :=
+  ⟨⟨by decide, by decide, by decide⟩, ⟨by decide, by decide, by decide⟩,
+   (by intro p hp; simp only [exampleDebug, List.mem_singleton] at hp; subst hp; exact ⟨by decide, by decide, by decide⟩),
+   (by
+     intro o ho
+     simp only [exampleDebug, List.mem_cons, List.not_mem_nil, or_false] at ho
+     rcases ho with rfl | rfl | rfl
+     · exact ⟨by decide, by decide, by intro a ha; simp only [List.mem_singleton] at ha; subst ha; exact ⟨3, ⟨by decide, by decide, by decide⟩, rfl⟩⟩
+     · exact ⟨by decide, by decide, by intro a ha; simp only [List.mem_singleton] at ha; subst ha; exact ⟨by decide, by decide, by decide⟩⟩
+     · exact ⟨by decide, by decide, by intro a ha; cases ha⟩)⟩
+example : exampleDebug.bytes = [5, 1, 1, 1, 3, 2, 0x7f, 0x0a, 0] ∧
+    decDebugInfo [5, 1, 1, 1, 3, 2, 0x7f, 0x0a, 0] = some (⟨5, [0], [⟨1, [3]⟩, ⟨2, [-1]⟩, ⟨10, []⟩, ⟨0, []⟩]⟩, []) := by
   decide +kernel
 
 end AgVerif.C05
